@@ -404,6 +404,20 @@ def forced_cases(seed, n):
             env = [("L", ("Object", [("v", g.leaf()), ("next", ("AnyOf", [("Ref", "L"), ("Nullish", "null")]))], [])),
                    ("T", ("Object", [("kids", ("Array", ("Ref", "T"))), ("tag", ("Optional", g.leaf()))], []))]
             rt = r.choice([("Ref", "L"), ("Ref", "T"), ("Object", [("l", ("Ref", "L")), ("t", ("Ref", "T"))], [])])
+        elif kind == 8 and i % 18 == 8:
+            # an intersection of closed objects sharing a key (same type) that is optional in one member and required in another
+            t = r.choice([("Typeof", "string"), ("Typeof", "number"), ("Const", "x"), ("Array", ("Typeof", "number"))])
+            k = r.choice(["id", "a", "kind"])
+            others = [(o, g.leaf()) for o in r.sample(["rev", "b", "n"], r.randrange(0, 3))]
+            opt = ("Object", [(k, ("Optional", t))] + ([("w", g.leaf())] if r.random() < 0.3 else []), [])
+            req = ("Object", [(k, t)] + others, [])
+            members = [opt, req] if r.random() < 0.7 else [req, opt]
+            if r.random() < 0.4:
+                env = [("Opt", opt), ("Req", req)]
+                members = [("Ref", "Opt") if m is opt else ("Ref", "Req") for m in members]
+            rt = ("AllOf", members)
+            if r.random() < 0.3:
+                rt = ("Object", [("h", rt)], [])
         elif kind == 8:
             # an intersection of closed objects sharing a key whose types differ only in the order of array-like parts
             a, b = r.sample([("Typeof", "string"), ("Typeof", "number"), ("Typeof", "boolean"), ("Const", "x"),
